@@ -1,0 +1,80 @@
+//! Read-only observation hooks for external verification harnesses.
+//! Compiled only with `--cfg penguin_rs_verif`; never part of a normal build.
+//
+// SPDX-License-Identifier: Apache-2.0 OR GPL-3.0-or-later
+
+use crate::loom::Ordering;
+use crate::{FlowSlot, Multiplexor};
+use alloc::vec::Vec;
+
+/// One entry of the flow table as seen by [`Multiplexor::verif_flow_digest`].
+#[derive(Clone, Copy, Debug, PartialEq, Eq, Hash)]
+pub struct VerifFlow {
+    /// Flow ID
+    pub id: u32,
+    /// 0 = `Requested`, 1 = `Established`, 2 = `BindRequested`
+    pub kind: u8,
+    /// Remaining send credit (`psh_send_remaining`), 0 unless established
+    pub credit: u32,
+    /// Whether writes are disallowed (`finish_sent`)
+    pub finish_sent: bool,
+    /// Whether the inbound direction is still open (no `Finish` received)
+    pub read_open: bool,
+    /// Number of inbound frames queued for the application
+    pub queued: usize,
+}
+
+impl<R> Multiplexor<R> {
+    /// Snapshot of the flow table, sorted by flow ID.
+    #[must_use]
+    pub fn verif_flow_digest(&self) -> Vec<VerifFlow> {
+        let flows = self.flows.read();
+        let mut v: Vec<VerifFlow> = flows
+            .iter()
+            .map(|(id, slot)| match slot {
+                FlowSlot::Requested(_) => VerifFlow {
+                    id: *id,
+                    kind: 0,
+                    credit: 0,
+                    finish_sent: false,
+                    read_open: false,
+                    queued: 0,
+                },
+                FlowSlot::Established(d) => VerifFlow {
+                    id: *id,
+                    kind: 1,
+                    credit: d.psh_send_remaining.load(Ordering::Relaxed),
+                    finish_sent: d.finish_sent.load(Ordering::Relaxed),
+                    read_open: d.sender.is_some(),
+                    queued: d
+                        .sender
+                        .as_ref()
+                        .map_or(0, |s| s.max_capacity() - s.capacity()),
+                },
+                FlowSlot::BindRequested(_) => VerifFlow {
+                    id: *id,
+                    kind: 2,
+                    credit: 0,
+                    finish_sent: false,
+                    read_open: false,
+                    queued: 0,
+                },
+            })
+            .collect();
+        v.sort_by_key(|f| f.id);
+        v
+    }
+}
+
+impl crate::MuxStream {
+    /// `(flow id, pushes received since the last Acknowledge, bytes left in the read buffer, acknowledge threshold)`
+    #[must_use]
+    pub fn verif_state(&self) -> (u32, u32, usize, u32) {
+        (
+            self.flow_id,
+            self.psh_recvd_since,
+            self.buf.len(),
+            self.rwnd_threshold,
+        )
+    }
+}
